@@ -300,7 +300,8 @@ func c03Flush(t tb, q *[]*c03Pending, min int) {
 func c03OnReject(t tb, m behMember, merged cfg.Config, o Outcome) {
 	a := ref.Analyse(merged)
 	obs := observeVerdict(o)
-	if a.Stage(false, false) == "accept" && (obs.Stage == "params" || obs.Stage == "services" || obs.Stage == "decorators") {
+	// (a failure in code generation counts too: every function argument the generator writes is valid Go)
+	if a.Stage(false, false) == "accept" && (obs.Stage == "params" || obs.Stage == "services" || obs.Stage == "decorators" || obs.Stage == "generate") {
 		violation(t, "good-pattern-rejected", fmt.Sprintf("a configuration whose patterns are all valid was rejected: %v", o.Report.Errors), behCase{Members: []behMember{m}})
 		return
 	}
@@ -370,7 +371,11 @@ func TestC03(t *testing.T) {
 	if ev.Mine(0) {
 		// longer hand-picked tokens beyond the quick bound
 		extras := []string{`%a()%`, `%a(1)%`, `%a("x")%`, `%a(1, "x")%`, `%a(%`, `%a)%`, `%a( )%`, `%todo()%`, `%todo("m")%`, `%1()%`, `%é()%`, `%a.a()%`, `%a-1%`,
-			`%%a%%`, `%a%%%`, `%%%a%`, `%a%%a%`, `%a% %a%`, `%a%a`, `a%a%a`, `%unknown()%`, `%A()%`, `%a ()%`, `%a()x%`, `%(a)%`, `%a(")%`, "%a(\n)%", `%env("VERIF_UNSET", "d")%`, `%envInt("VERIF_UNSET", 3)%`, `%env()%x`, `100%`, `%`, `%%%`, `%%%%`}
+			`%%a%%`, `%a%%%`, `%%%a%`, `%a%%a%`, `%a% %a%`, `%a%a`, `a%a%a`, `%unknown()%`, `%A()%`, `%a ()%`, `%a()x%`, `%(a)%`, `%a(")%`, "%a(\n)%", `%env("VERIF_UNSET", "d")%`, `%envInt("VERIF_UNSET", 3)%`, `%env()%x`, `100%`, `%`, `%%%`, `%%%%`,
+			// separators, brackets and quotes inside string arguments; arguments that are Go expressions rather than plain literals
+			`%a("x,y")%`, `%a("x ,y")%`, `%a("a,,b")%`, `%a("1,000", 2)%`, `%a("(")%`, `%a(")")%`, `%a("))")%`, `%a("f(x), g(y)")%`, `%a("a\"b,c")%`,
+			`%a((1))%`, `%a(("x"))%`, `%a(int(5))%`, `%a(string("s)"))%`, `%a(float64(2))%`, `%a(1, (2))%`, `%a((1), 2)%`, `%a(((true)))%`,
+			`%todo("a,b")%`, `%todo(("later"))%`, `%env("VERIF_UNSET", "1,000")%`, `%env("VERIF_UNSET", ("d)"))%`, `%envInt("VERIF_UNSET", int(8080))%`, `%envInt("VERIF_UNSET", (3))%`, `x%a("p,q")%y%a((7))%`}
 		for _, pos := range []string{"param", "service-arg", "decorator-arg"} {
 			c03Eval(t, c03Case{Position: pos, Candidates: extras}, &q)
 		}
